@@ -7,6 +7,7 @@ import Rivia.Model.User
 import Rivia.Spec.Lists
 import Rivia.Spec.Cursor
 import Rivia.Spec.ChmodGrammar
+import Rivia.Spec.Xdg
 
 namespace Driver
 open Rivia
@@ -137,22 +138,25 @@ def coreFn (fn : String) (args : List String) : Option String :=
   | "xdg", [w, e] => do
     let env ← envOfArg e
     let en := envLookup env
-    let r ← match w with
-      | "config_dir" => some (showOutcome showStr (User.configDir en))
-      | "cache_dir" => some (showOutcome showStr (User.cacheDir en))
-      | "data_dir" => some (showOutcome showStr (User.dataDir en))
-      | "state_dir" => some (showOutcome showStr (User.stateDir en))
-      | "runtime_dir" => some (okStr (User.runtimeDir en))
-      | "sys_data_dirs" => some ("ok " ++ showList (User.sysDataDirs en))
-      | "sys_config_dirs" => some ("ok " ++ showList (User.sysConfigDirs en))
-      | "path_dirs" => some (showOutcome showList (User.pathDirs en))
-      | "home_dir" => some (showOutcome showStr (homeDir en))
+    let os (o : Option (Outcome Str)) : String := match o with | some r => showOutcome showStr r | none => "-"
+    let (r, sp) ← match w with
+      | "config_dir" => some (showOutcome showStr (User.configDir en), os (Spec.homeDirSpec en "XDG_CONFIG_HOME" ".config"))
+      | "cache_dir" => some (showOutcome showStr (User.cacheDir en), os (Spec.homeDirSpec en "XDG_CACHE_HOME" ".cache"))
+      | "data_dir" => some (showOutcome showStr (User.dataDir en), os (Spec.homeDirSpec en "XDG_DATA_HOME" ".local/share"))
+      | "state_dir" => some (showOutcome showStr (User.stateDir en), os (Spec.homeDirSpec en "XDG_STATE_HOME" ".local/state"))
+      | "runtime_dir" => some (okStr (User.runtimeDir en), okStr ((en (Spec.sv "XDG_RUNTIME_DIR")).getD (Spec.sv "/tmp")))
+      | "sys_data_dirs" => some ("ok " ++ showList (User.sysDataDirs en), "ok " ++ showList (Spec.listDirSpec en "XDG_DATA_DIRS" ["/usr/local/share", "/usr/share"]))
+      | "sys_config_dirs" => some ("ok " ++ showList (User.sysConfigDirs en), "ok " ++ showList (Spec.listDirSpec en "XDG_CONFIG_DIRS" ["/etc/xdg"]))
+      | "path_dirs" => some (showOutcome showList (User.pathDirs en),
+          match en (Spec.sv "PATH") with | some x => "ok " ++ showList (Spec.segmentsSpec x) | none => "err Var")
+      | "home_dir" => some (showOutcome showStr (homeDir en), showOutcome showStr (Outcome.ofOption .var (en (Spec.sv "HOME"))))
       | _ => none
-    pure (line3 r "-" "-")
+    pure (line3 r sp "-")
   | "getrids", [u, g, e] => do
     let uid ← natOfArg u; let gid ← natOfArg g; let env ← envOfArg e
     let (a, b) := User.getrids (envLookup env) uid gid
-    pure (line3 (okInts [a, b]) "-" "-")
+    let (a', b') := Spec.getridsSpec (envLookup env) uid gid
+    pure (line3 (okInts [a, b]) (okInts [a', b']) "-")
   | "vfs_config_dir", [n, d, e] => do
     let name ← strOfArg n; let dirs ← strOfArg d; let env ← envOfArg e
     -- paths present on the Memfs: every listed dir (with its ancestors) and dir/name
@@ -164,7 +168,9 @@ def coreFn (fn : String) (args : List String) : Option String :=
     let ex := fun (p : Str) => match absWith en ['/'] p with
       | .ok a => List.elem a present
       | _ => false
-    pure (line3 (showOptPath (User.vfsConfigDir (envLookup env) ex name)) "-" "-")
+    let sp := match Spec.vfsConfigDirSpec en ex name with | some r => showOptPath r | none => "-"
+    let cls := match User.configDir en with | .ok _ => "-" | _ => "no_home_hides_system_dirs"
+    pure (line3 (showOptPath (User.vfsConfigDir en ex name)) sp cls)
   | _, _ => none
 
 end Driver
